@@ -427,6 +427,11 @@ func (f *FProc) Run() error {
 		w.event(Event{Kind: "aux-ans", Proc: f.Key, Inst: n, Data: "killed"})
 		f.code = -1
 		return errors.New("signal: killed")
+	case outcome == "sigkill":
+		// the command is killed by a signal (not by its context): no exit code of its own
+		w.event(Event{Kind: "aux-ans", Proc: f.Key, Inst: n, Data: "killed"})
+		f.code = -1
+		return errors.New("signal: killed")
 	default: // "fail"
 		w.event(Event{Kind: "aux-ans", Proc: f.Key, Inst: n, Data: "fail"})
 		f.code = 1
